@@ -2598,6 +2598,19 @@ BUFR_Dataset  *bufr_decode_message_subsets( BUFR_Message *msg, BUFR_Tables *tabl
          {
          cb = (BufrDescriptor *)node->data;
 
+/*
+ * every subset of a compressed message has the structure of the first one: a replication
+ * factor that differs between subsets leaves a shorter sequence behind (not a valid message)
+ */
+         for ( i = 0; i < nbsubset1 ; i++ )
+            if (nodes[i] == NULL) break;
+         if (i < nbsubset1)
+            {
+            bufr_print_debug( _("Warning: subsets of a compressed message differ in structure\n") );
+            dts->data_flag |= BUFR_FLAG_INVALID;
+            break;
+            }
+
          if (debug)
             {
             bufr_print_descriptor( errmsg, cb );
